@@ -98,6 +98,7 @@ type C04Op struct {
 	W int    `json:"w"`           // acting party / direction
 	L int    `json:"l,omitempty"` // text length
 	F int    `json:"f,omitempty"` // filler kind
+	X int    `json:"x,omitempty"` // text prefix: user text may itself look like protocol traffic
 }
 
 // C04Script is a generated case.
@@ -192,6 +193,7 @@ func runC04(sc *C04Script) *sim.Outcome {
 			s.nText++
 			n := capLen(op.L, sc.Cfg.V, sc.Cfg.fragOf(who))
 			text := append([]byte(token(who, s.nText)), filler(op.F, n, s.nText)...)
+			text = append([]byte([]string{"", "", "", "", "?OTR", "?OTRv23? ", "?OTR?v2? ", "?OTR Error: ", "?OTR:AAMD", "?OTR|", "?OTR,1,2,"}[op.X%11]), text...)
 			c := w.Send(who, text)
 			if c.Err != nil {
 				o.Fail("C04/send-error", "Send failed in an encrypted session: %v", c.Err)
@@ -318,6 +320,7 @@ func genC04Ops(t *rapid.T, maxOps int, maxLen int) []C04Op {
 				op.L = maxLen
 			}
 			op.F = rapid.IntRange(0, 4).Draw(t, "f")
+			op.X = rapid.IntRange(0, 10).Draw(t, "prefix")
 		}
 		ops = append(ops, op)
 	}
